@@ -920,8 +920,9 @@ def run_hist(ctx, drv, n):
 def run(ctx):
     from qv.driver import Driver
     drv = Driver("C06")
-    from props import c06_more
+    from props import c06_more, c06_g6
     try:
+        c06_g6.run_fixed(ctx, drv)          # fixed blocks (independent of VERIF_SEED): thresholds, orientation, repeated calls
         run_hist(ctx, drv, ctx.n(250, 4000))
         c06_more.run_reject(ctx, drv, ctx.n(500, 8000))
         c06_more.run_forms(ctx, drv, ctx.n(500, 8000))
@@ -946,6 +947,9 @@ def replay(ctx, rep):
             check_float_case(ctx, drv, case)
         elif case.get("stream") == "hist":
             check_history(ctx, drv, case)
+        elif case.get("stream") == "session":
+            from props import c06_g6
+            c06_g6.check_session(ctx, drv, case)
         elif case.get("stream") == "reject":
             from props import c06_more
             c06_more.check_reject_history(ctx, drv, case)
